@@ -293,23 +293,32 @@ def one_d(ix, R):
         pe['xg'] = code(fl, 'self.xsecGrid')
         rets = fl.of('return')
         why = []
-        want = {'interp_lin_only': 'linear', 'interp_exp_only': 'exp'}
-        for e in rets:
-            a = atom_of(fl, e.value)
-            if a is None or a.head != 'call' or a.extra[0][3:] not in want:
-                why.append('returns %s' % fmt(fl, e.value))
+        # by scenario: what is returned in linear mode and what in exp mode (whether the dispatch sits here, in a helper,
+        # in two returns or in one conditional expression)
+        from sa.helpers import resolve_guards, has_guard
+        rv = the_return(fl).value
+        conds = {m_: fl.tab.canon_cond(spec(fl, "self._interp_mode == '%s'" % m_)) for m_ in ('linear', 'exp')}
+        for mode, kern in (('linear', 'interp_lin_only'), ('exp', 'interp_exp_only')):
+            def decide(c, mode=mode):
+                cc, fc = fl.tab.canon_cond(c)
+                for m_, (cw, fw) in conds.items():
+                    if fl.tab.equal(cc, cw):
+                        return (m_ == mode) != (fc != fw)
+                return None
+            v = resolve_guards(fl, rv, decide)
+            a = atom_of(fl, v)
+            if has_guard(v) and (a is None or a.head == 'guard'):
+                raise AnalysisError('what is returned in %s mode is not settled: %s' % (mode, fmt(fl, v)[:160]))
+            if a is None or a.head != 'call' or a.extra[0][3:] != kern:
+                why.append('%s mode returns %s' % (mode, fmt(fl, v)[:120]))
                 continue
-            m = want[a.extra[0][3:]]
-            g = e.guards[-1] if e.guards else None
-            if not holds_at(fl, e, spec(fl, "self._interp_mode == '%s'" % m)):
-                why.append('%s under %s' % (a.extra[0][3:], g.text() if g else 'no guard'))
             roles = ['xg[P, tmin, filt]', 'xg[P, tmax, filt]', 'T',
                      'self.temperatureGrid[tmin]', 'self.temperatureGrid[tmax]']
             for got, r in zip(a.args, roles):
                 if not fl.tab.equal(got, spec(fl, r, pe)):
-                    why.append('%s argument %s, expected %s' % (a.extra[0][3:], fmt(fl, got), r))
-        if len(rets) != 2 or not fl.of('raise'):
-            why.append('%d returns, %d raises' % (len(rets), len(fl.of('raise'))))
+                    why.append('%s argument %s, expected %s' % (kern, fmt(fl, got), r))
+        if not fl.of('raise'):
+            why.append('an unknown mode does not raise')
         R.check('6.tonly', 'ARG', site,
                 'xsecGrid[P-index, T-index, filter] at the two temperature nodes, kernel '
                 '(f(Tmin), f(Tmax), T, Tmin, Tmax) chosen by mode; unknown mode raises',
